@@ -549,6 +549,19 @@ class Discharger:
             for (e, truth, g) in facts:
                 if truth is False and e.endswith("::is_empty(%s)" % coll):
                     return ("LEN-DOM", "index 0 dominated by !is_empty() in bb%d" % g)
+        # RANGE-IDX: ix is produced by a `0..coll.len()` range (for index in 0..v.len() { v[index] })
+        m = re.fullmatch(r"call@(\d+):(?:<std::ops::Range<\w+> as std::iter::Iterator>|std::iter::range::<impl std::iter::Iterator for std::ops::Range<A>>)::next@Some\.0", ix)
+        if m and coll:
+            t = S.fn.blocks[int(m.group(1))]["term"]
+            if t["t"] == "call":
+                rv = S.val(t["args"][0])
+                mr = re.search(r"Range\{c:0,(?:std::vec::Vec::<T, A>|core::slice::<impl \[T\]>)::len\(([^{}]*)\)\}", rv)
+
+                def core_(x):
+                    x = re.sub(r"<std::vec::Vec<T, A> as std::ops::Deref(Mut)?>::deref(_mut)?", "", x)
+                    return re.sub(r"[&*()]", "", x)
+                if mr and core_(mr.group(1)) == core_(coll):
+                    return ("RANGE-IDX", "index runs over 0..len of the same collection")
         # POSITION-IDX: ix is the Some payload of Iterator::position / rposition over an iterator of the very collection being indexed
         m = re.fullmatch(r"call@(\d+):.*Iterator>?::(position|rposition)@Some\.0", ix)
         if m and coll:
